@@ -373,6 +373,32 @@ theorem relabel_keys (d : D V) (m : List (String × String))
   apply setAll_nil_of_nodup
   simpa [keys, List.map_map, Function.comp_def] using hn
 
+/-- `relabel` for ANY relabelling, collisions included (review t2: `relabel_keys` needs distinct new names, nothing was stated
+otherwise): stated through the observation `lookup` - under a name `k'` the result holds the value of the LAST item of `d` whose
+key is renamed to `k'` (python's dict construction: the later assignment wins), and nothing under a name no key is renamed to.
+With a collision a value of `d` is therefore lost (`relabel_collision_loses`): the property's "exactly the expected keys and
+untouched values" can only be read for collision-free relabellings, which is `relabel_keys`. -/
+theorem relabel_lookup (d : D V) (m : List (String × String)) (k' : String) :
+    lookup k' (relabel d m).items =
+      lookup k' (d.items.map fun kv => ((lookup kv.1 m).getD kv.1, kv.2)).reverse := by
+  simp only [relabel, lookup_setAll]
+  cases lookup k' (d.items.map fun kv => ((lookup kv.1 m).getD kv.1, kv.2)).reverse <;> rfl
+
+/-- ... and the keys of the result are exactly the new names -/
+theorem relabel_mem_keys (d : D V) (m : List (String × String)) (k' : String) :
+    k' ∈ keys (relabel d m) ↔ ∃ k ∈ keys d, (lookup k m).getD k = k' := by
+  have h1 : k' ∈ keys (relabel d m) ↔ (lookup k' (relabel d m).items).isSome = true := by
+    rw [lookup_isSome_iff]; rfl
+  rw [h1, relabel_lookup, lookup_isSome_iff]
+  simp only [keys, List.map_reverse, List.mem_reverse, List.map_map, List.mem_map, Function.comp_def]
+  constructor
+  · rintro ⟨kv, hkv, rfl⟩; exact ⟨kv.1, ⟨kv, hkv, rfl⟩, rfl⟩
+  · rintro ⟨k, ⟨kv, hkv, rfl⟩, rfl⟩; exact ⟨kv, hkv, rfl⟩
+
+/-- witness: relabelling `a` onto the existing key `b` loses `a`'s value - `dictattr(a=1, b=2).relabel(a='b') == {'b': 2}` -/
+theorem relabel_collision_loses :
+    (relabel (⟨2, [("a", (1 : Nat)), ("b", 2)]⟩ : D Nat) [("a", "b")]).items = [("b", 2)] := by decide
+
 /-- `(d - ks).keys() == d.keys() - ks`, composed: the key list of the difference is the ulist difference of the key list -/
 theorem sub_keys_ulist (d : D V) (ks : List String) (hd : (keys d).Nodup) :
     keys (subKeys d ks) = USet.subList (keys d) ks := by
